@@ -817,6 +817,18 @@ FAMILY = {"classes": [
                 ["mix", "mix", ["opt", ["lit", "x", 5]], False, None]]},
     {"name": "FAux", "base": None, "forbid": False, "ld": None, "consts": [],
      "fields": [["a", "a", "int", False, None]]},
+    # a nested (non-plugin) JSON-LD entity, a child of it that OVERRIDES inherited constants
+    # (@type and kind), and a schema with parent-typed fields (single, list, inside a Union):
+    # pydantic keeps a child instance as it is in a parent-typed field
+    {"name": "FEnt", "base": None, "forbid": False, "ld": {"context": "https://schema.org", "type": "Thing"},
+     "consts": [["kind", "x"]], "fields": [["name", "name", "nestr", False, None]]},
+    {"name": "FEntKid", "base": "FEnt", "forbid": False, "ld": {"context": {"@vocab": "http://ex.org/"}, "type": "Person"},
+     "consts": [["kind", "y"]], "fields": [["nick", "nick", ["opt", "str"], False, None]]},
+    {"name": "FHolder", "base": None, "forbid": False, "ld": None, "consts": [],
+     "fields": [["one", "one", ["opt", ["obj", "FEnt"]], False, None],
+                ["many", "many", ["list", ["obj", "FEnt"]], True, []],
+                ["either", "either", ["opt", ["union", "int", ["obj", "FEnt"]]], False, None],
+                ["label", "label", "nestr", False, None]]},
     # record-name order vs. inheritance: children of vt.base 1.0.0 whose names sort after
     # (same package) and before (other package) the parent's; vt.leaf < vt.mid (same package)
     # and vt.mid > vt.base (other package) complete the four combinations
@@ -834,10 +846,11 @@ FAMILY_PLUGINS = {
     "FLeaf2": ("vt.leaf", (1, 1, 0), False), "FSolo": ("vt.solo", (0, 1, 0), False),
     "FAux": ("vt.aux", (0, 1, 0), True),
     "FZeta": ("vt.zeta", (0, 1, 0), False), "FAble": ("vt.able", (0, 3, 1), False),
+    "FHolder": ("vt.holder", (0, 1, 0), False),
 }
 # package name -> (version, class names)
 FAMILY_PACKAGES = {
-    "vpkg-alpha": ((1, 0, 0), ["FBase1", "FBase2", "FBase3", "FMid1", "FZeta"]),
+    "vpkg-alpha": ((1, 0, 0), ["FBase1", "FBase2", "FBase3", "FMid1", "FZeta", "FHolder"]),
     "vpkg-beta": ((2, 3, 4), ["FMid2", "FLeaf1", "FLeaf2", "FSolo", "FAux", "FAble"]),
 }
 
@@ -1285,3 +1298,86 @@ def json_ascii(j) -> bool:
     if isinstance(j, dict):
         return all(json_ascii(k) and json_ascii(v) for k, v in j.items())
     return True
+
+
+# ---- child-schema instances in parent-typed fields
+
+def schema_subclasses(P) -> list:
+    """Proper schema subclasses of P (no partial models, no version-less markers), those that
+    override an inherited constant first."""
+    from metador_core.plugin.metaclass import UndefVersion
+    from metador_core.schema.partial import PartialModel
+    out, seen, stack = [], set(), list(P.__subclasses__())
+    while stack:
+        c = stack.pop()
+        if c in seen:
+            continue
+        seen.add(c)
+        stack.extend(c.__subclasses__())
+        if issubclass(c, PartialModel) or UndefVersion._is_marked(c) or not hasattr(c, "__constants__"):
+            continue
+        out.append(c)
+    pc = getattr(P, "__constants__", {}) or {}
+
+    def overrides(c):
+        cc = c.__constants__ or {}
+        return any(k in cc and cc[k] != v for k, v in pc.items())
+    out.sort(key=lambda c: (not overrides(c), c.__module__, c.__qualname__))
+    return out
+
+
+def child_instance(value, rng):
+    """An instance of a child schema of type(value) carrying value's data, or None."""
+    for C in schema_subclasses(type(value))[:4]:
+        try:
+            return C.parse_obj(value.json_dict())
+        except Exception:  # noqa: BLE001
+            pass
+        try:
+            return C.parse_obj(gen_model_input(C, rng, 1))
+        except Exception:  # noqa: BLE001
+            pass
+    return None
+
+
+def childify(cls, obj, rng):
+    """(instance of cls whose schema-typed field values are replaced by instances of child
+    schemas where such exist, number of replaced values); (obj, 0) when nothing applies."""
+    from metador_core.schema import MetadataSchema
+    consts = getattr(cls, "__constants__", {}) or {}
+    vals, n = {}, 0
+    for name, f in cls.__fields__.items():
+        if name in consts:
+            continue
+        v = getattr(obj, name)
+        if v is None:
+            continue
+        if isinstance(v, MetadataSchema):
+            k = child_instance(v, rng)
+            if k is not None:
+                v, n = k, n + 1
+        elif isinstance(v, list):
+            new = []
+            for x in v:
+                k = child_instance(x, rng) if isinstance(x, MetadataSchema) else None
+                if k is not None:
+                    n += 1
+                new.append(k if k is not None else x)
+            v = new
+        vals[f.alias] = v
+    if not n:
+        return obj, 0
+    try:
+        out = cls.parse_obj(vals)
+    except Exception:  # noqa: BLE001
+        return obj, 0
+    # count what really is a child instance now
+    kept = 0
+    for name in cls.__fields__:
+        v = getattr(out, name, None)
+        for x in (v if isinstance(v, list) else [v]):
+            if isinstance(x, MetadataSchema) and name not in consts:
+                ft = cls.__fields__[name].type_
+                if isinstance(ft, type) and type(x) is not ft and issubclass(type(x), MetadataSchema):
+                    kept += 1
+    return out, max(kept, 0) or n
